@@ -1702,7 +1702,10 @@ int yr_execute_code(YR_SCAN_CONTEXT* context)
         if (is_undef(r2) || count == 0)
           r1.i = YR_UNDEFINED;
         else
-          r1.i = (((double) found / count) * 100) >= r2.i ? 1 : 0;
+          // found / count >= r2.i / 100 in exact integer arithmetic: as the
+          // percentage is an integer this is floor(found * 100 / count) >= r2.i
+          // (in floating point 29 / 50 * 100 is 57.99...).
+          r1.i = (((int64_t) found * 100) / count) >= r2.i ? 1 : 0;
       }
 
       push(r1);
